@@ -222,6 +222,115 @@ example : editFields 1 [] (fun _ => 0) [10, 20] [("original_data", 99)] = [10, 9
 example : ctorAliasesUnedited [⟨"S.__init__", "original_data", "original_data", ["S"]⟩]
     [("S", "original_data")] = false := by decide
 
+/-! ### link-attribute slots written inside queries (round 4)
+
+A value-returning method may store a named link attribute on the object and hand the name to a
+generic measure.  The slot is shared state of the object.  `attrTableOK` (decidable, applied to the
+table `translate/attrs_C06.py` regenerates for every class): every slot has one generating
+expression wherever it is written, every slot a method reads is written or made sure of earlier in
+the same method, and nothing is unclassified. -/
+
+/-- **Queries through link-attribute slots do not interfere.**  For a class table passing
+`attrTableOK` and an attribute store in which every slot holds a content written by the table and
+every executed cached method has left its slots behind (`AInv`; the fresh object satisfies it), every
+finite sequence of queries observes, query by query, exactly what that query observes on a fresh
+object, and the invariant is kept. -/
+theorem attr_queries_pure_from (tbl : List (String × List AStep)) (h : attrTableOK tbl = true)
+    (qs : List String) (st : AState) (hinv : AInv (writesOf tbl) (oncesOf tbl) st) :
+    arun tbl st qs = qs.map (afresh tbl) ∧ AInv (writesOf tbl) (oncesOf tbl) (afinal tbl st qs) := by
+  simp only [attrTableOK, Bool.and_eq_true] at h
+  obtain ⟨⟨hW, hO⟩, hcov⟩ := h
+  have key : ∀ (q : String) (steps : List AStep), findSteps q tbl = some steps →
+      ∀ st', AInv (writesOf tbl) (oncesOf tbl) st' →
+      AInv (writesOf tbl) (oncesOf tbl) (execSteps st' steps).1 ∧
+      (execSteps st' steps).2 = expectObs (writesOf tbl) steps := by
+    intro q steps hf st' hi
+    have hm := findSteps_mem hf
+    exact execSteps_ok _ _ hW hO steps [] st' hi (by simp)
+      (by simpa using List.all_eq_true.mp hcov _ hm)
+      (fun a ha p hp => mem_writesOf hm ha hp) (fun a ha o ho => mem_oncesOf hm ha ho)
+  induction qs generalizing st with
+  | nil => exact ⟨rfl, hinv⟩
+  | cons q t ih =>
+    simp only [arun, afinal, List.map_cons, afresh]
+    cases hf : findSteps q tbl with
+    | none =>
+      obtain ⟨i1, i2⟩ := ih st hinv
+      exact ⟨by simp only [i1], i2⟩
+    | some steps =>
+      obtain ⟨k1, k2⟩ := key q steps hf st hinv
+      obtain ⟨_, f2⟩ := key q steps hf AState.init (AInv_init _ _)
+      obtain ⟨i1, i2⟩ := ih _ k1
+      exact ⟨by simp only [i1, k2, f2], i2⟩
+
+/-- … in particular from a fresh object: the answer of a query does not depend on which queries
+were made before it, and repeating a query returns the same -/
+theorem attr_queries_pure (tbl : List (String × List AStep)) (h : attrTableOK tbl = true)
+    (qs : List String) : arun tbl AState.init qs = qs.map (afresh tbl) :=
+  (attr_queries_pure_from tbl h qs AState.init (AInv_init _ _)).1
+
+/-- after every query sequence every slot holds the one generating expression the table writes
+there: the content of a slot does not depend on which query filled it -/
+theorem attr_slots_canonical (tbl : List (String × List AStep)) (h : attrTableOK tbl = true)
+    (qs : List String) (s : String) (g : Nat)
+    (hs : slotGet s (afinal tbl AState.init qs).slots = some g) :
+    slotGet s (writesOf tbl) = some g := by
+  have hinv := (attr_queries_pure_from tbl h qs AState.init (AInv_init _ _)).2
+  simp only [attrTableOK, Bool.and_eq_true] at h
+  exact slotGet_of_consistent h.1.1 (hinv.1 s g hs)
+
+/-- **Link-less networks.**  On an object without links no attribute is ever stored (the store
+loops over an empty edge sequence), so its table is `linkless tbl` — for *every* class table, clean
+or not, every query sequence observes what a fresh object observes (the attribute is missing each
+time) and the attribute store stays empty. -/
+theorem attr_queries_pure_linkless (tbl : List (String × List AStep)) (qs : List String) :
+    arun (linkless tbl) AState.init qs = qs.map (afresh (linkless tbl)) ∧
+    afinal (linkless tbl) AState.init qs = AState.init := by
+  induction qs with
+  | nil => exact ⟨rfl, rfl⟩
+  | cons q t ih =>
+    simp only [arun, afinal, List.map_cons, afresh]
+    cases hf : findSteps q (linkless tbl) with
+    | none => exact ⟨by simp only [ih.1], ih.2⟩
+    | some steps =>
+      have hr : steps.all isRead = true := by
+        rw [findSteps_linkless] at hf
+        cases h0 : findSteps q tbl with
+        | none => simp [h0] at hf
+        | some s0 =>
+          simp only [h0, Option.map_some, Option.some.injEq] at hf
+          subst hf
+          simp [List.all_filter]
+      have hst := execSteps_reads AState.init steps hr
+      simp only [hst]
+      exact ⟨by simp only [ih.1], ih.2⟩
+
+/-- the hypothesis is needed — seeded change C06-5: the lag-weighted closeness fills the slot of the
+strength-weighted measures from the lags; whichever is asked first decides what the other sees -/
+example : arun [("lag_closeness", [.ensure "correlation_strength" 2, .use "correlation_strength"]),
+      ("strength_closeness", [.ensure "correlation_strength" 3, .use "correlation_strength"])]
+    AState.init ["lag_closeness", "strength_closeness"] = [[some 2], [some 2]] := by decide
+example : afresh [("lag_closeness", [.ensure "correlation_strength" 2, .use "correlation_strength"]),
+      ("strength_closeness", [.ensure "correlation_strength" 3, .use "correlation_strength"])]
+    "strength_closeness" = [some 3] := by decide
+example : attrTableOK [("lag_closeness", [.ensure "correlation_strength" 2, .use "correlation_strength"]),
+      ("strength_closeness", [.ensure "correlation_strength" 3, .use "correlation_strength"])]
+    = false := by decide
+/-- a method reading a slot it does not make sure of depends on an earlier query having filled it -/
+example : arun [("a", [.store "d" 0]), ("b", [.use "d"])] AState.init ["a", "b"] = [[], [some 0]] ∧
+    afresh [("a", [.store "d" 0]), ("b", [.use "d"])] "b" = [none] ∧
+    attrTableOK [("a", [.store "d" 0]), ("b", [.use "d"])] = false := by decide
+/-- satisfiable, including the cached store (`TsonisClimateNetwork.correlation`): the second and
+third query find the attribute left behind by the first -/
+example : attrTableOK [("correlation", [.once "correlation" [("correlation", 5)]]),
+      ("cw_closeness", [.once "correlation" [("correlation", 5)], .use "correlation"]),
+      ("dw_closeness", [.ensure "distance" 0, .use "distance"])] = true ∧
+    arun [("correlation", [.once "correlation" [("correlation", 5)]]),
+      ("cw_closeness", [.once "correlation" [("correlation", 5)], .use "correlation"]),
+      ("dw_closeness", [.ensure "distance" 0, .use "distance"])] AState.init
+      ["correlation", "cw_closeness", "dw_closeness", "cw_closeness"]
+      = [[], [some 5], [some 0], [some 5]] := by decide
+
 end Pyunicorn.Pure
 
 namespace Pyunicorn.Generated.StructC06
@@ -255,5 +364,17 @@ theorem generated_kernel_calls_preserve_shared {α : Type} (n : Nat)
 edited in place by any method of its class family -/
 theorem ctor_aliases_unedited : ctorAliasesUnedited ctorAliases fieldEdits = true := by
   decide +kernel
+
+/-- the link-attribute tables of every class of the current source (regenerated on every run from
+the method bodies, helpers inlined) pass the check: one generating expression per slot, every read
+preceded by a write in the same method, nothing unclassified -/
+theorem attr_tables_ok : attrTables.all (fun c => attrTableOK c.2) = true := by decide +kernel
+
+/-- … hence, by `attr_queries_pure`, on every class of the current source every sequence of the
+attribute-setting measures observes what each of them observes on a fresh object -/
+theorem generated_attr_queries_pure (c : String × List (String × List AStep))
+    (hc : c ∈ attrTables) (qs : List String) :
+    arun c.2 AState.init qs = qs.map (afresh c.2) :=
+  attr_queries_pure c.2 (List.all_eq_true.mp attr_tables_ok c hc) qs
 
 end Pyunicorn.Generated.StructC06
